@@ -12,7 +12,7 @@
    Repaired in /repo and stated at full strength: deepcopy-foreign-tzinfo-naive, duration-deepcopy-drops-weeks, interval-deepcopy-typeerror. *)
 From Coq Require Import ZArith List Bool String.
 From Coq Require Import Floats.SpecFloat.
-From PV Require Import Lib.PyBase Spec.Cal Spec.Zone Spec.TdFloat Model.Duration Model.Pickle Model.PickleHistory Proofs.ZoneFacts Proofs.C09Facts Proofs.C14Facts Proofs.C14History Proofs.FloatRoundTripC09 Model.PickleNative Proofs.C14Native.
+From PV Require Import Lib.PyBase Spec.Cal Spec.Zone Spec.TdFloat Model.Duration Model.Pickle Model.PickleHistory Proofs.ZoneFacts Proofs.C09Facts Proofs.C14Facts Proofs.C14History Proofs.FloatRoundTripC09 Model.PickleNative Proofs.C14Native Proofs.C14Equal.
 Import ListNotations.
 Open Scope Z_scope.
 
@@ -239,6 +239,23 @@ Theorem roundtrip_interval_deepcopy_witness :
      /\ iv_rebuild zdb_paris RDeep iv = Ok iv).
 Proof. exact iv_deep_witness. Qed.
 Print Assumptions roundtrip_interval_deepcopy_witness.
+
+(* endpoints that are == (start is not later than end, as Interval.__init__ compares them) yet distinguishable - one instant in two zones, two tzinfo
+   classes of one zone, the two folds of one wall time, a zero-length Interval: the deep copy holds BOTH endpoints exactly as given (the end is never
+   replaced by the copied start), with the same flags and native value.  Checked on real objects by the iv-equal-instant / ivn-equal-instant streams. *)
+Theorem interval_deepcopy_keeps_equal_yet_distinct_endpoints : forall zdb s e a iv,
+  interval_new zdb s e a = Ok iv -> ep_valid s -> ep_valid e -> ep_gt zdb s e = Ok false ->
+  exists iv', iv_rebuild zdb RDeep iv = Ok iv' /\ iv_start iv' = s /\ iv_end iv' = e /\ iv_abs iv' = a /\ iv_invert iv' = false /\ iv_N iv' = iv_N iv.
+Proof. exact iv_deep_keeps_equal_endpoints. Qed.
+Print Assumptions interval_deepcopy_keeps_equal_yet_distinct_endpoints.
+
+(* satisfiable with different endpoints: 2013-10-27T04:00 Europe/Paris carried by a pendulum Timezone and by zoneinfo.ZoneInfo (neither is later) *)
+Theorem interval_deepcopy_equal_endpoints_example :
+  iv_wit_end <> iv_wit_end_foreign /\ ep_gt zdb_paris iv_wit_end iv_wit_end_foreign = Ok false /\ ep_gt zdb_paris iv_wit_end_foreign iv_wit_end = Ok false /\
+  exists iv, interval_new zdb_paris iv_wit_end iv_wit_end_foreign false = Ok iv /\ iv_N iv = 0%Z /\ iv_rebuild zdb_paris RDeep iv = Ok iv
+    /\ iv_start iv = iv_wit_end /\ iv_end iv = iv_wit_end_foreign.
+Proof. exact iv_deep_equal_endpoints_example. Qed.
+Print Assumptions interval_deepcopy_equal_endpoints_example.
 
 (* ---- Intervals BUILT FROM STANDARD-LIBRARY operands (Model/PickleNative.v: Interval(<datetime>, <datetime>), pendulum.interval, a.diff(<native>);
    an operand is (is_native, endpoint); __new__ works on the operands as given, __init__ keeps pendulum.instance(operand)).
